@@ -771,6 +771,13 @@ func ruleC03R10(w *World, r *Report) {
 								why = "the current token can be " + kinds.String() + " here, and only identifier tokens have a non-empty AsString"
 							}
 						default:
+							// the token held by value in a local (`id := p.expect(<ident>)` with expect returning token.Token):
+							// what was stored into the cell
+							if al, isAl := tokv.(*ssa.Alloc); isAl {
+								if _, srcs := tk.tokenSources(al); len(srcs) == 1 {
+									tokv = srcs[0]
+								}
+							}
 							if c, isCall := tokv.(*ssa.Call); isCall && c.Call.StaticCallee() != nil && c.Call.StaticCallee().Name() == "expect" && len(c.Call.Args) == 2 {
 								if k, isC := constString(c.Call.Args[1]); isC && k == "<ident>" {
 									okArg = true
